@@ -7,7 +7,7 @@ from anytree import Resolver, ResolverError
 
 from .. import forest, refs, resolver_ref as rr, shapes, strategies
 from ..core import Violation
-from .c07 import ALPHABET, SEPS, resolver, uniquify
+from .c07 import ALPHABET, SEPS, resolver, uniquify, use_on_foreign_tree
 
 PROP_ID = "C08"
 LEVEL = "exploration"
@@ -184,7 +184,65 @@ def check_special(case, acc):
     acc.tag("special_casing_character_cases")
 
 
+def check_reentrant(case, acc):
+    """The path attribute is a property that itself uses the very resolver object that is running the query (a
+    shared module-level resolver): the nested call on another tree must not disturb the outer one."""
+    from anytree import NodeMixin
+
+    shared = {}
+    state = {"nested": False, "inner_calls": 0}
+    side_cls = rr.make_class("/", "name")
+    side = side_cls("side")
+    side_cls("x", parent=side_cls("p", parent=side))
+    side_cls("x", parent=side_cls("q", parent=side))
+
+    class ReNode(NodeMixin):
+        separator = "/"
+
+        def __init__(self, label, parent=None):
+            self._label = label
+            self.parent = parent
+
+        @property
+        def name(self):
+            if not state["nested"] and case["inner"]:
+                state["nested"] = True
+                try:
+                    state["inner_calls"] += 1
+                    getattr(shared["resolver"], case["inner"])(side, case["inner_path"])
+                finally:
+                    state["nested"] = False
+            return self._label
+
+    plain_cls = rr.make_class("/", "name")
+    results = []
+    for cls in (ReNode, plain_cls):
+        root = cls("root")
+        kids = [cls(n, parent=root) for n in ("a", "ref", "b")]
+        leaves = [cls("x", parent=k) for k in kids] + [cls("y", parent=kids[0])]
+        nodes = [root] + kids + leaves
+        index = {id(n): i for i, n in enumerate(nodes)}
+        out = []
+        for relax in (True, False):
+            shared["resolver"] = Resolver("name", relax=relax)
+            for start, pattern in ((0, "*/x"), (0, "**/x"), (0, "b/x"), (1, "../*/?"), (0, "/root/*/x"), (0, "*/zz"), (0, "ref/x")):
+                for method in ("glob", "get"):
+                    try:
+                        got = getattr(shared["resolver"], method)(nodes[start], pattern)
+                        out.append([index[id(n)] for n in got] if isinstance(got, list) else (None if got is None else index[id(got)]))
+                    except ResolverError as exc:
+                        out.append(type(exc).__name__)
+        results.append(out)
+    if results[0] != results[1]:
+        bad = next(i for i, (a, b) in enumerate(zip(*results)) if a != b)
+        raise Violation("history-dependence", "with a path attribute that uses the same resolver object for a nested %s(%r): query #%d gives %r, without nesting %r" % (case["inner"], case["inner_path"], bad, results[0][bad], results[1][bad]))
+    acc.nontrivial(state["inner_calls"] > 0)
+    acc.tag("reentrant_resolver_cases")
+
+
 def check_case(case, acc):
+    if case.get("kind") == "reentrant":
+        return check_reentrant(case, acc)
     if case.get("kind") == "special":
         return check_special(case, acc)
     nodes = rr.build(case)
@@ -222,6 +280,9 @@ def _once(case, acc, nodes, labels, clear):
         if pattern.startswith(case["sep"]) and len(comps) > 1 and comps[1] == "**":
             acc.note("absolute_pattern_with_doublestar_root_skipped")
             continue
+        if case.get("foreign_first"):
+            use_on_foreign_tree(case, pattern, ic)
+            acc.tag("queries_used_on_a_tree_with_another_separator_first")
         if case.get("get_first"):
             # the same text resolved as a literal path just before: nothing get() leaves behind may change what the pattern means
             try:
@@ -295,7 +356,7 @@ def random_cases(draw):
         again = draw(st.lists(st.integers(0, len(queries) - 1), max_size=15))
         queries = queries + [queries[i] for i in again]
     muts = draw(strategies.tree_mutations(max_ops=2, rename_values=st.sampled_from(texts)))
-    return {"shape": shape, "names": names, "sep": sep, "pathattr": draw(st.sampled_from(["name", "name", "id"])), "queries": queries, "keep_cache": draw(st.booleans()), "mutations": muts, "get_first": draw(st.integers(0, 3)) == 0}
+    return {"shape": shape, "names": names, "sep": sep, "pathattr": draw(st.sampled_from(["name", "name", "id"])), "queries": queries, "keep_cache": draw(st.booleans()), "mutations": muts, "get_first": draw(st.integers(0, 3)) == 0, "foreign_first": draw(st.integers(0, 2)) == 0}
 
 
 ENUM_COMPS = ["a", "b", "a*", "?", "*", "**", "..", ".", "", "zz", "[a]"]
@@ -338,6 +399,7 @@ def plan(tier, seed):
     max_nodes, maxlen = (4, 3) if tier == "quick" else (5, 4)
     tasks = [{"engine": "enum", "max_nodes": max_nodes, "maxlen": maxlen, "index": i, "count": nshards * 2} for i in range(nshards * 2)]
     tasks += [{"engine": "hyp", "examples": examples, "seed": seed * 1000 + i} for i in range(nshards)]
+    tasks += [{"engine": "reentrant"}]
     tasks += [{"engine": "special", "seed": seed * 1000 + 700 + i, "examples": 8 if tier == "quick" else 60} for i in range(4)]
     if tier == "thorough":
         # coverage-guided supplement: 16 libFuzzer campaigns on the same strategy + oracle (skipped if atheris is unavailable)
@@ -350,6 +412,14 @@ def run_task(task, acc):
         from ..core import run_fuzz_task
 
         return run_fuzz_task(PROP_ID, task, acc)
+    if task["engine"] == "reentrant":
+        for inner, path in (("glob", "*/x"), ("glob", "**"), ("get", "p/x"), ("glob", "q"), (None, None)):
+            case = {"kind": "reentrant", "inner": inner, "inner_path": path}
+            exc = acc.evaluate(check_case, case, enumerated=False)
+            if exc is not None:
+                acc.add_violation(case, exc)
+                break
+        return
     if task["engine"] == "special":
         strat = st.lists(st.sampled_from(SPECIAL_NAMES), min_size=2, max_size=6, unique=True).map(lambda names: {"kind": "special", "names": names})
         return acc.run_hypothesis(check_case, strat, task["examples"], task["seed"])
